@@ -115,6 +115,23 @@ func drawC07(t *rapid.T) Case {
 		c.Inner = []string{`\n`, `\\`, `\"`, `A`, `😀`, `\ud800`, "\xff", `\q`, "é", `\u00`}[rapid.IntRange(0, 9).Draw(t, "esc")]
 		c.Close = []string{`"`, ``, `\`}[rapid.IntRange(0, 2).Draw(t, "escclose")]
 		c.N = bigN() / 4
+	case 8:
+		// object keys of every length around the scratch-buffer sizes of the field-name matcher, with a
+		// multi-byte or invalid rune at the boundary; decoded into structs (no field matches exactly)
+		c.Kind = "doc"
+		var b bytes.Buffer
+		b.WriteString(`{"name":"a"`)
+		for k := rapid.IntRange(1, 4).Draw(t, "nkeys"); k > 0; k-- {
+			b.WriteString(`,"`)
+			for seg := rapid.IntRange(1, 3).Draw(t, "nseg"); seg > 0; seg-- {
+				b.WriteString(strings.Repeat([]string{"k", "K", "Z", "_"}[rapid.IntRange(0, 3).Draw(t, "fill")], rapid.IntRange(0, 70).Draw(t, "keylen")))
+				b.WriteString([]string{"é", "世", "😀", "\xff", "\xe4\xb8", "ſ", "K", "\u212a", "İ", "\\u00e9", ""}[rapid.IntRange(0, 10).Draw(t, "keyrune")])
+			}
+			b.WriteString(`":1`)
+		}
+		b.WriteString("}")
+		c.Data = b.Bytes()
+		c.Entry = []int{1, 5, 0, 6}[rapid.IntRange(0, 3).Draw(t, "structentry")]
 	default:
 		c.Kind = "govalue"
 		c.GoKind = rapid.IntRange(0, len(c07GoKinds)-1).Draw(t, "gokind")
@@ -248,7 +265,11 @@ func (c *C07Case) Transcript() string {
 		var v interface{}
 		return errReport(sonic.Unmarshal(in, &v), n, "")
 	case "Unmarshal(struct skip)":
-		var v struct{ Zzz int }
+		var v struct {
+			Zzz  int
+			Name string `json:"name"`
+			Uni  int    `json:"KKKKKKKKKKKKKKKKKKKKKKKKKKKKKK世界,omitempty"`
+		}
 		return errReport(sonic.Unmarshal(in, &v), n, "")
 	case "Unmarshal(RawMessage)":
 		var v json.RawMessage
